@@ -8,7 +8,7 @@
 (*             of atoms (full UPExpr records) the skeletons refer to        *)
 (* IOEnv.OBS : one record per case                                          *)
 (*    id, fam, c   the case (family and code of NormalFormsEnum)            *)
-(*    e            the expression as enumerated (skeleton)                  *)
+(*    e            the expression as enumerated (skeleton over atoms)       *)
 (*    ein          the projection of the FNode built from e (the object the *)
 (*                 library was actually given)                              *)
 (*    nnf, dnf     [st, exc, out]: st = "ok" (out = projection of the       *)
@@ -27,13 +27,17 @@
 (* Verdicts are total: Verdict is always TRUE and prints                    *)
 (*    <<"FAIL", id, clause, detail, feature>>                               *)
 (***************************************************************************)
-EXTENDS NormalForms, Json, IOUtils
+EXTENDS NormalForms, Json, IOUtils, SequencesExt
 
 Obs == ndJsonDeserialize(IOEnv.OBS)
 CtxRec == ndJsonDeserialize(IOEnv.CTX)[1]
 R == [P |-> CtxRec.P, keys |-> CtxRec.keys]
 A == CtxRec.atoms
-St == TLCEval(States(R))
+SS == TLCEval(SetToSeq(States(R)))
+N == DOMAIN SS
+\* truth table and Boolean-ness of every atom of the table, by UPExpr!Eval
+T == TLCEval(AtomTT(R, A, SS))
+B == TLCEval(AtomBool(R, A, SS))
 Count == Len(Obs)
 
 \* one state per observation, below NB block states (m = 0 root, m = -k block k, m > 0 record m)
@@ -44,38 +48,36 @@ Next == \/ m = 0 /\ m' \in {0 - k : k \in 1..NB}
         \/ m < 0 /\ m' \in {(0 - m) + NB * j : j \in 0..((Count + m) \div NB)}
 Spec == Init /\ [][Next]_m
 
-\* clause violated by one conversion result r against the input expression ein ("" if none)
+\* clause violated by one conversion result r against the input skeleton ein (<<"", "">> if none)
 ConvClause(tag, r, ein, shapeOK(_)) ==
    IF r.st = "timeout" THEN <<tag \o "-timeout", "">>
    ELSE IF r.st # "ok" THEN <<tag \o "-raises", r.exc>>
    ELSE IF ~SkOK(A, r.out) THEN <<tag \o "-shape", "malformed">>
-   ELSE LET out == Expand(A, r.out) IN
-        IF ~shapeOK(out) THEN <<tag \o "-shape", "">>
-        ELSE IF ~BoolEverywhere(R, out, St) THEN <<tag \o "-equiv", "not-boolean">>
-        ELSE LET mi == Models(R, ein, St)
-                 mo == Models(R, out, St)
-             IN IF mi = mo THEN <<"", "">>
-                ELSE <<tag \o "-equiv", IF mo \subseteq mi THEN "loses-models"
-                                         ELSE IF mi \subseteq mo THEN "gains-models" ELSE "differs">>
+   ELSE IF ~shapeOK(r.out) THEN <<tag \o "-shape", "">>
+   ELSE IF ~BoolEverywhere(B, r.out) THEN <<tag \o "-equiv", "not-boolean">>
+   ELSE LET mi == TT(T, N, ein)
+            mo == TT(T, N, r.out)
+        IN IF mi = mo THEN <<"", "">>
+           ELSE <<tag \o "-equiv", IF mo \subseteq mi THEN "loses-models"
+                                    ELSE IF mi \subseteq mo THEN "gains-models" ELSE "differs">>
 
-Feature(ein) == IF HasValidProductTerm(R, MNnf(ein, TRUE), St) THEN "valid-product-term" ELSE "plain"
+Feature(ein) == IF HasValidProductTerm(T, N, MNnf(ein, TRUE)) THEN "valid-product-term" ELSE "plain"
 
 Report(o, c, f) == c[1] = "" \/ PrintT(<<"FAIL", o.id, c[1], c[2], f>>)
 
 Verdict ==
    m > 0 =>
       LET o == Obs[m] IN
-      IF ~SkOK(A, o.e) THEN PrintT(<<"FAIL", o.id, "machinery-bad-case", "", "">>)
+      IF ~SkOK(A, o.e) \/ ~BoolEverywhere(B, o.e) THEN PrintT(<<"FAIL", o.id, "machinery-bad-case", "", "">>)
       ELSE IF o.built # "ok" THEN PrintT(<<"FAIL", o.id, "input-build", o.built, "">>)
       ELSE IF ~SkOK(A, o.ein) THEN PrintT(<<"FAIL", o.id, "input-build", "malformed", "">>)
-      ELSE LET e == Expand(A, o.e)
-               ein == Expand(A, o.ein)
-           IN IF ~EquivOn(R, e, ein, St) THEN PrintT(<<"FAIL", o.id, "input-build", "not-equivalent", "">>)
-              ELSE LET f == Feature(ein) IN
-                   /\ Report(o, ConvClause("nnf", o.nnf, ein, IsNNF), f)
-                   /\ Report(o, ConvClause("dnf", o.dnf, ein, IsDNF), f)
-                   /\ (f = "plain" \/ PrintT(<<"FEATURE", o.id, f>>))
+      ELSE IF ~BoolEverywhere(B, o.ein) \/ TT(T, N, o.e) # TT(T, N, o.ein)
+           THEN PrintT(<<"FAIL", o.id, "input-build", "not-equivalent", "">>)
+      ELSE LET f == Feature(o.ein) IN
+           /\ Report(o, ConvClause("nnf", o.nnf, o.ein, IsNNF), f)
+           /\ Report(o, ConvClause("dnf", o.dnf, o.ein, IsDNF), f)
+           /\ (f = "plain" \/ PrintT(<<"FEATURE", o.id, f>>))
 
 \* the context the judge evaluates in (printed once, for the evidence)
-ASSUME PrintT(<<"CONTEXT", Count, Cardinality(St), Len(A)>>)
+ASSUME PrintT(<<"CONTEXT", Count, Len(SS), Len(A)>>)
 =============================================================================
